@@ -116,8 +116,12 @@ func serveHTTPBackend(conn net.Conn, ident string, lg *ledger) {
 			time.Sleep(time.Duration(d) * time.Millisecond)
 		}
 		body := ident + "\n"
+		sent := body
+		if req.Method == http.MethodHead {
+			sent = ""
+		}
 		_, err = fmt.Fprintf(conn, "HTTP/1.1 200 OK\r\nX-Ident: %s\r\nX-Echo-Tag: %s\r\nContent-Type: text/plain\r\nContent-Length: %d\r\n\r\n%s",
-			ident, tag, len(body), body)
+			ident, tag, len(body), sent)
 		if err != nil {
 			return
 		}
@@ -194,11 +198,27 @@ type request struct {
 	// DelayMs > 0 asks the backend to wait before it answers (request in flight); Tag fixes the request tag.
 	DelayMs int
 	Tag     string
+	// Method of origin/absolute-form requests ("" = GET); Fresh: first request of a connection of its own
+	// (the first bytes of a connection decide which listener of a shared control port gets it).
+	Method string
+	Fresh  bool
 }
 
 func (r request) sig() string {
-	return r.Kind + "|" + r.Form + "|" + r.Host + "|" + r.Target + "|" + r.User
+	return r.Kind + "|" + r.Form + "|" + r.method() + "|" + fmt.Sprint(r.Fresh) + "|" + r.Host + "|" + r.Target + "|" + r.User
 }
+
+func (r request) method() string {
+	if r.Form == "connect" {
+		return "CONNECT"
+	}
+	if r.Method == "" {
+		return "GET"
+	}
+	return r.Method
+}
+
+func hasBody(method string) bool { return method == "POST" || method == "PUT" || method == "PATCH" }
 
 // answer is what the user observed.
 type answer struct {
@@ -208,13 +228,21 @@ type answer struct {
 	Tag     string
 	Err     string // transport anomaly: neither a backend answer nor a proper refusal
 	Reused  bool   // sent on a connection that had carried earlier requests
-	Dropped bool   // TLS: closed without alert and without identity (a refusal, but also what a connection routed to a proxy that closes meanwhile looks like)
+	// Foreign404: a 404 that is not frps' own not-found page (Go's plain "404 page not found" of the control
+	// port's internal websocket HTTP server): the request was claimed by a listener other than the vhost.
+	Foreign404  bool
+	FirstTarget string // request target of the first request of the connection this one was sent on
+	Body        string // first bytes of a 404 body
+	ControlPort bool   // the request went to a vhost port that is the control port
+	Dropped     bool   // TLS: closed without alert and without identity (a refusal, but also what a connection routed to a proxy that closes meanwhile looks like)
 }
 
 func (a answer) String() string {
 	switch {
 	case a.Err != "":
 		return "error(" + a.Err + ")"
+	case a.Foreign404:
+		return fmt.Sprintf("foreign-404(%q)", a.Body)
 	case a.Refused:
 		return fmt.Sprintf("refused(%d)", a.Status)
 	default:
@@ -228,23 +256,26 @@ func basic(user string) string {
 
 // userAgent holds the user-side connections of one case towards one server.
 type userAgent struct {
-	caseIdx  int
-	httpAddr string
-	tlsAddr  string
-	muxAddr  string
-	mu       sync.Mutex
-	conns    map[int]*kaConn
+	caseIdx   int
+	httpAddr  string
+	tlsAddr   string
+	muxAddr   string
+	shared    bool // the vhost HTTP port is the control port
+	sharedTLS bool // the vhost HTTPS port is the control port
+	mu        sync.Mutex
+	conns     map[int]*kaConn
 }
 
 type kaConn struct {
-	mu   sync.Mutex
-	c    net.Conn
-	br   *bufio.Reader
-	used int
+	mu    sync.Mutex
+	c     net.Conn
+	br    *bufio.Reader
+	used  int
+	first string // target of the first request sent on c
 }
 
 func newUserAgent(caseIdx int, s *srvInst) *userAgent {
-	return &userAgent{caseIdx: caseIdx, conns: map[int]*kaConn{},
+	return &userAgent{caseIdx: caseIdx, conns: map[int]*kaConn{}, shared: s.httpPort == s.bindPort, sharedTLS: s.httpsPort == s.bindPort,
 		httpAddr: fmt.Sprintf("127.0.0.1:%d", s.httpPort),
 		tlsAddr:  fmt.Sprintf("127.0.0.1:%d", s.httpsPort),
 		muxAddr:  fmt.Sprintf("127.0.0.1:%d", s.muxPort)}
@@ -293,11 +324,11 @@ func (ua *userAgent) httpBytes(r request, tag string) []byte {
 	var b bytes.Buffer
 	switch r.Form {
 	case "absolute":
-		fmt.Fprintf(&b, "GET http://%s%s HTTP/1.1\r\nHost: %s\r\n", r.Host, r.Target, r.Host)
+		fmt.Fprintf(&b, "%s http://%s%s HTTP/1.1\r\nHost: %s\r\n", r.method(), r.Host, r.Target, r.Host)
 	case "connect":
 		fmt.Fprintf(&b, "CONNECT %s HTTP/1.1\r\nHost: %s\r\n", r.Host, r.Host)
 	default:
-		fmt.Fprintf(&b, "GET %s HTTP/1.1\r\nHost: %s\r\n", r.Target, r.Host)
+		fmt.Fprintf(&b, "%s %s HTTP/1.1\r\nHost: %s\r\n", r.method(), r.Target, r.Host)
 	}
 	if r.User != "" {
 		if r.Form == "connect" {
@@ -309,19 +340,35 @@ func (ua *userAgent) httpBytes(r request, tag string) []byte {
 	if r.DelayMs > 0 {
 		fmt.Fprintf(&b, "X-Delay-Ms: %d\r\n", r.DelayMs)
 	}
+	if hasBody(r.method()) {
+		fmt.Fprintf(&b, "Content-Type: text/plain\r\nContent-Length: 5\r\n")
+	}
 	fmt.Fprintf(&b, "X-Tag: %s\r\nUser-Agent: c06\r\n\r\n", tag)
+	if hasBody(r.method()) {
+		b.WriteString("hello")
+	}
 	return b.Bytes()
 }
 
 // doHTTP sends one request on the chosen keep-alive connection (redialled when the server closed it).
 func (ua *userAgent) doHTTP(r request) answer {
-	ua.mu.Lock()
-	k := ua.conns[r.Conn]
-	if k == nil {
-		k = &kaConn{}
-		ua.conns[r.Conn] = k
+	var k *kaConn
+	if r.Fresh {
+		k = &kaConn{} // a connection of its own, closed after the answer
+		defer func() {
+			if k.c != nil {
+				k.c.Close()
+			}
+		}()
+	} else {
+		ua.mu.Lock()
+		k = ua.conns[r.Conn]
+		if k == nil {
+			k = &kaConn{}
+			ua.conns[r.Conn] = k
+		}
+		ua.mu.Unlock()
 	}
-	ua.mu.Unlock()
 	k.mu.Lock()
 	defer k.mu.Unlock()
 	var last answer
@@ -336,16 +383,18 @@ func (ua *userAgent) doHTTP(r request) answer {
 			if err != nil {
 				return answer{Err: "dial: " + err.Error(), Tag: tag}
 			}
-			k.c, k.br, k.used = c, bufio.NewReader(c), 0
+			k.c, k.br, k.used, k.first = c, bufio.NewReader(c), 0, r.Target
 		}
+		first := k.first
 		_ = k.c.SetDeadline(time.Now().Add(ioTimeout))
 		err := writeSplit(k.c, ua.httpBytes(r, tag), r.Split)
 		var resp *http.Response
 		if err == nil {
-			resp, err = http.ReadResponse(k.br, &http.Request{Method: "GET"})
+			resp, err = http.ReadResponse(k.br, &http.Request{Method: r.method()})
 		}
+		var body []byte
 		if err == nil {
-			_, err = io.Copy(io.Discard, resp.Body)
+			body, err = io.ReadAll(io.LimitReader(resp.Body, 1<<16))
 			resp.Body.Close()
 		}
 		if err != nil {
@@ -362,13 +411,35 @@ func (ua *userAgent) doHTTP(r request) answer {
 			k.c.Close()
 			k.c = nil
 		}
-		return httpAnswer(resp, tag, reused)
+		a := httpAnswer(resp, body, tag, reused)
+		a.ControlPort, a.FirstTarget = ua.shared, first
+		return a
 	}
 	return last
 }
 
-func httpAnswer(resp *http.Response, tag string, reused bool) answer {
+// foreignNotFound: Go's http.NotFound (text/plain, nosniff, "404 page not found") as opposed to frps' own page.
+func foreignNotFound(resp *http.Response, body []byte) bool {
+	if resp.StatusCode != 404 || bytes.Contains(body, []byte("frp")) {
+		return false
+	}
+	return bytes.HasPrefix(body, []byte("404 page not found")) || resp.Header.Get("X-Content-Type-Options") == "nosniff"
+}
+
+func httpAnswer(resp *http.Response, body []byte, tag string, reused bool) answer {
 	a := answer{Status: resp.StatusCode, Tag: tag, Reused: reused}
+	if resp.StatusCode == 301 && resp.Header.Get("X-Ident") == "" && resp.Header.Get("Location") != "" {
+		// Go's ServeMux path cleaning: again the internal HTTP server of another listener, not the vhost
+		a.Foreign404, a.Refused, a.Body = true, true, "301 Moved Permanently"
+		return a
+	}
+	if resp.StatusCode == 404 {
+		a.Foreign404 = foreignNotFound(resp, body)
+		if len(body) > 60 {
+			body = body[:60]
+		}
+		a.Body = string(body)
+	}
 	id := resp.Header.Get("X-Ident")
 	switch {
 	case resp.StatusCode == 200 && id != "":
@@ -382,6 +453,16 @@ func httpAnswer(resp *http.Response, tag string, reused bool) answer {
 		a.Err = fmt.Sprintf("unexpected status %d (ident %q)", resp.StatusCode, id)
 	}
 	return a
+}
+
+// claimedKey names the finding "a vhost request on the shared control port was answered by another listener":
+// connections whose first request target extends frps' websocket path ("/~!frp" + more) are one witness class,
+// everything else another.
+func claimedKey(a answer) string {
+	if strings.HasPrefix(a.FirstTarget, "/~!frp") {
+		return "shared-port-request-extending-websocket-path-claimed-by-control-listener"
+	}
+	return "shared-port-request-claimed-by-control-listener"
 }
 
 // doHTTPConnect sends a CONNECT request to the vhost HTTP port on a fresh connection.
@@ -400,7 +481,13 @@ func (ua *userAgent) doHTTPConnect(r request) answer {
 	if err != nil {
 		return answer{Err: "connect: " + err.Error(), Tag: tag}
 	}
-	return httpAnswer(resp, tag, false)
+	var body []byte
+	if resp.StatusCode == 404 {
+		body, _ = io.ReadAll(io.LimitReader(resp.Body, 1<<16))
+	}
+	a := httpAnswer(resp, body, tag, false)
+	a.ControlPort, a.FirstTarget = ua.shared, r.Target
+	return a
 }
 
 type captureConn struct{ buf bytes.Buffer }
@@ -456,6 +543,11 @@ func (ua *userAgent) doTLS(r request) answer {
 	}
 	if first[0] == 0x15 { // alert record
 		return answer{Refused: true, Status: 0x15, Tag: tag}
+	}
+	if first[0] == 0x16 {
+		// a TLS server answered the handshake: the vhost never terminates TLS (it forwards the ClientHello or
+		// sends an alert), so another listener of the port (the control port's TLS listener) claimed the connection
+		return answer{Refused: true, Foreign404: true, Status: 0x16, Body: "TLS handshake record from a TLS-terminating listener", ControlPort: ua.sharedTLS, Tag: tag}
 	}
 	line, err := br.ReadString('\n')
 	if err != nil || !strings.HasPrefix(line, "IDENT ") {
